@@ -3255,6 +3255,180 @@ theorem spill_is_two_steps {H : Hashes} (hH : HashOk H) {m : SegMap V} (inv : Se
   congr 1
   omega
 
+
+/-! ### table lengths are powers of two: `& mask` is `% len` -/
+
+def Pow2 (n : Nat) : Prop := ∃ k, n = 2 ^ k
+
+theorem ceilPow2Go_pow2 (x : Nat) : ∀ f s, Pow2 s → Pow2 (ceilPow2Go x f s) := by
+  intro f
+  induction f with
+  | zero => intro s h; exact h
+  | succ f ih =>
+    intro s h
+    unfold ceilPow2Go
+    split
+    · apply ih
+      obtain ⟨k, hk⟩ := h
+      exact ⟨k + 1, by rw [hk, Nat.pow_succ, Nat.mul_comm]⟩
+    · exact h
+
+theorem ceilPow2_pow2 (x : Nat) : Pow2 (ceilPow2 x) := ceilPow2Go_pow2 x x 1 ⟨0, rfl⟩
+
+theorem growLen_pow2 (n : Nat) : Pow2 (growLen n) := ceilPow2_pow2 _
+
+/-- the code's `x & mask` (mask = len-1) is the model's `x % len` -/
+theorem mask_eq_mod {n : Nat} (h : Pow2 n) (x : Nat) : x &&& (n - 1) = x % n := by
+  obtain ⟨k, rfl⟩ := h
+  exact Nat.and_two_pow_sub_one_eq_mod x k
+
+/-- the code's `(i + 1) & mask` is the model's `next` -/
+theorem next_eq_mask {n i : Nat} (h : Pow2 n) (hi : i < n) : next n i = (i + 1) &&& (n - 1) := by
+  rw [mask_eq_mod h]
+  unfold next
+  split
+  · rename_i h1; rw [Nat.mod_eq_of_lt h1]
+  · have : i + 1 = n := by omega
+    rw [this, Nat.mod_self]
+
+theorem new_size_pow2 (capacity : Nat) : Pow2 (UMap.new capacity : UMap V).data.size := by
+  unfold UMap.new
+  simp only [Array.size_replicate]
+  split
+  · exact ceilPow2_pow2 _
+  · exact ⟨3, rfl⟩
+
+theorem put_size {idx : Nat → Nat → Nat} (hidx : IdxOk idx) {m : UMap V} (inv : Inv idx m) (k : Nat) (v : V) :
+    (m.put idx k v).data.size = m.data.size ∨ (m.put idx k v).data.size = growLen m.data.size := by
+  unfold UMap.put
+  by_cases hk : k = 0
+  · rw [if_pos hk]; exact Or.inl rfl
+  · rw [if_neg hk]
+    obtain ⟨inv1, _, _, hlt1⟩ := growCheck_spec hidx inv
+    have hsz : (if m.size ≥ m.growAt then m.grow idx else m).data.size = m.data.size ∨
+        (if m.size ≥ m.growAt then m.grow idx else m).data.size = growLen m.data.size := by
+      split
+      · exact Or.inr (grow_spec hidx inv).2.2.2.2
+      · exact Or.inl rfl
+    generalize (if m.size ≥ m.growAt then m.grow idx else m) = m1 at *
+    obtain ⟨_, _, hN⟩ := store_spec hidx inv1 hlt1 k hk v
+    simp only
+    unfold UMap.putProbe
+    cases hp : probe m1.data k m1.data.size (idx m1.data.size k) with
+    | found i => simp only; show (wr m1.data i (k, v)).size = _ ∨ _; rw [size_wr]; exact hsz
+    | empty e => simp only; show (wr m1.data e (k, v)).size = _ ∨ _; rw [size_wr]; exact hsz
+    | full => exact absurd hp hN
+
+theorem pine_size {idx : Nat → Nat → Nat} (hidx : IdxOk idx) {m : UMap V} (inv : Inv idx m) (k : Nat) (v : V) :
+    (m.putIfNotExists idx k v).1.data.size = m.data.size ∨
+    (m.putIfNotExists idx k v).1.data.size = growLen m.data.size := by
+  unfold UMap.putIfNotExists
+  by_cases hk : k = 0
+  · rw [if_pos hk]; cases m.zero <;> exact Or.inl rfl
+  · rw [if_neg hk]
+    obtain ⟨inv1, _, _, hlt1⟩ := growCheck_spec hidx inv
+    have hsz : (if m.size ≥ m.growAt then m.grow idx else m).data.size = m.data.size ∨
+        (if m.size ≥ m.growAt then m.grow idx else m).data.size = growLen m.data.size := by
+      split
+      · exact Or.inr (grow_spec hidx inv).2.2.2.2
+      · exact Or.inl rfl
+    generalize (if m.size ≥ m.growAt then m.grow idx else m) = m1 at *
+    obtain ⟨_, _, hN⟩ := store_spec hidx inv1 hlt1 k hk v
+    simp only
+    cases hp : probe m1.data k m1.data.size (idx m1.data.size k) with
+    | found i => exact hsz
+    | empty e => simp only; show (wr m1.data e (k, v)).size = _ ∨ _; rw [size_wr]; exact hsz
+    | full => exact absurd hp hN
+
+theorem del_size {idx : Nat → Nat → Nat} (hidx : IdxOk idx) {m : UMap V} (inv : Inv idx m) (k : Nat) :
+    (m.del idx k).1.data.size = m.data.size := by
+  unfold UMap.del
+  by_cases hk : k = 0
+  · rw [if_pos hk]; split <;> rfl
+  · rw [if_neg hk]
+    obtain ⟨hF, _, _⟩ := probe_spec hidx inv.slots k hk
+    cases hp : probe m.data k m.data.size (idx m.data.size k) with
+    | found i =>
+      obtain ⟨hi, hki⟩ := hF i hp
+      exact (delAt_spec hidx inv i hi (by rw [hki]; exact hk)).2.2.2.1
+    | empty e => rfl
+    | full => rfl
+
+theorem evict_size {idx : Nat → Nat → Nat} (hidx : IdxOk idx) {m : UMap V} (inv : Inv idx m) (o n sk : Nat) :
+    (m.evictKeysAt idx o n sk).1.data.size = m.data.size := by
+  unfold UMap.evictKeysAt
+  split
+  · rfl
+  · have := (evictLoop_spec hidx sk n (2 * m.data.size + 1) m (o % m.data.size) 0 0 inv (by omega)).2.1
+    simp only
+    split
+    · exact this
+    · exact this
+
+/-- every operation keeps the table length a power of two -/
+theorem step_pow2 {idx : Nat → Nat → Nat} (hidx : IdxOk idx) {m : UMap V} (inv : Inv idx m) (op : Op V)
+    (h : Pow2 m.data.size) : Pow2 (step idx m op).data.size := by
+  cases op with
+  | put k v => rcases put_size hidx inv k v with e | e <;> (show Pow2 (m.put idx k v).data.size; rw [e])
+               · exact h
+               · exact growLen_pow2 _
+  | pine k v => rcases pine_size hidx inv k v with e | e <;> (show Pow2 (m.putIfNotExists idx k v).1.data.size; rw [e])
+                · exact h
+                · exact growLen_pow2 _
+  | del k => show Pow2 (m.del idx k).1.data.size; rw [del_size hidx inv]; exact h
+  | evict o n s => show Pow2 (m.evictKeysAt idx o n s).1.data.size; rw [evict_size hidx inv]; exact h
+  | grow => show Pow2 (m.grow idx).data.size; rw [(grow_spec hidx inv).2.2.2.2]; exact growLen_pow2 _
+  | clear => show Pow2 (Array.replicate m.data.size ((0, default) : Nat × V)).size; simpa using h
+
+theorem history_pow2 {idx : Nat → Nat → Nat} (hidx : IdxOk idx) (ops : List (Op V)) :
+    ∀ (m : UMap V), Inv idx m → Pow2 m.data.size → Pow2 (ops.foldl (step idx) m).data.size := by
+  induction ops with
+  | nil => intro m _ h; exact h
+  | cons op ops ih =>
+    intro m inv h
+    exact ih _ (step_spec hidx inv op).1 (step_pow2 hidx inv op h)
+
+
+/-- **`Clear`** of the segmented table (run alone): every segment emptied, counter zero -/
+theorem seg_clear_spec {H : Hashes} {m : SegMap V} (inv : SegInv H m) :
+    SegInv H m.clear ∧ (∀ k, sabs H m.clear k = none) ∧ m.clear.count = 0 := by
+  have hsz : m.clear.segs.size = m.segs.size := by simp [SegMap.clear]
+  have hseg : ∀ i, i < m.segs.size → m.clear.segAt i = (m.segAt i).clear := by
+    intro i hi
+    simp [SegMap.clear, SegMap.segAt, Array.getD_eq_getD_getElem?, hi]
+  have hout : ∀ i, m.segs.size ≤ i → m.clear.segAt i = default := by
+    intro i hi
+    simp [SegMap.clear, SegMap.segAt, Array.getD_eq_getD_getElem?, Array.getElem?_eq_none (by simpa using hi)]
+  refine ⟨⟨by rw [hsz]; exact inv.nseg, ?_, ?_, ?_⟩, ?_, rfl⟩
+  · intro i hi
+    rw [hsz] at hi
+    rw [hseg i hi]; exact (clear_spec (inv.segs i hi)).1
+  · intro i hi k hk
+    rw [hsz] at hi
+    rw [hseg i hi, (clear_spec (inv.segs i hi)).2.1 k] at hk
+    exact absurd rfl hk
+  · show (0 : Int) = total m.clear
+    unfold total
+    rw [sum_zero]
+    intro j hj
+    have hj' : j < m.segs.size := by simpa [SegMap.clear] using hj
+    have := hseg j hj'
+    rw [segAt_eq_getElem m.clear j (by rw [hsz]; exact hj')] at this
+    simp only [Array.getElem_toList]
+    rw [this]; rfl
+  · intro k
+    unfold sabs
+    by_cases hi : SegMap.segOf H m.clear k < m.segs.size
+    · rw [hseg _ hi]; exact (clear_spec (inv.segs _ hi)).2.1 k
+    · rw [hout _ (by omega)]
+      show abs (default : UMap V) k = none
+      unfold abs
+      split
+      · rfl
+      · rw [lookup_eq_none_iff]; intro p hp
+        have h0 : (default : UMap V).data.size = 0 := rfl
+        omega
+
 /-! ### the real mixers are admissible instances -/
 
 theorem realIdx_ok : IdxOk realIdx := fun n _ hn => Nat.mod_lt _ hn
